@@ -729,8 +729,14 @@ func (s *Sched) Stuck(onlyWorkload bool) []string {
 			d += " " + t.condKey
 		case stBlockedSUT:
 			if dump == "" {
-				buf := make([]byte, 1<<20)
-				dump = string(buf[:runtime.Stack(buf, true)])
+				for sz := 1 << 20; ; sz *= 4 {
+					buf := make([]byte, sz)
+					n := runtime.Stack(buf, true)
+					if n < sz || sz >= 256<<20 {
+						dump = string(buf[:n])
+						break
+					}
+				}
 			}
 			d += " at " + siteOfGoroutine(dump, t.goid)
 		}
